@@ -90,7 +90,7 @@ func (t trStep) coq() string {
 // ---------------------------------------------------------------- symmetric QR algorithm
 // qrAlgorithm_symmetric.go, re-implemented statement by statement on the public Scalar / Matrix API.
 
-const trSymEpsilon = 1e-18 // default Epsilon of qrAlgorithm.Run
+var trSymEpsilon = 1e-18 // default Epsilon of qrAlgorithm.Run (a variable: hist.go pre-checks convergence with explicit epsilons)
 
 func skelWilkinsonShift(mu, t11, t12, t22, t1, t2 ad.Scalar) {
 	d := t1
@@ -221,7 +221,7 @@ func skelSymQR(A *FM, cu bool, maxSweeps int) (Tf, Zf *FM, log []trStep, status 
 // ---------------------------------------------------------------- Golub-Kahan SVD
 // svd.go, re-implemented statement by statement (default Epsilon 1.11e-16).
 
-const trSvdEpsilon = 1.11e-16
+var trSvdEpsilon = 1.11e-16
 
 type trSvdScratch struct {
 	Mu, C, S, T1, T2, T3, T4, T5 ad.Scalar
